@@ -23,8 +23,9 @@ SPEC = {
         'entry map. Not decided: the order maintained by the backends themselves (heap invariant, BarrelList index '
         'translation), observational identity at large sizes.'
         ' T9.head: peek/pop read only the head of the backend. T14.empty: the IndexError for an empty queue originates at the head access after culling. T9.translate: BarrelList sub-list positions come from _translate_index or a provably single sub-list.'
-        ' T11.pq: the base class changes the entry list only through the backend hooks.'),
-    'decided': ['entry list mutated only through hooks', 'head-only access', 'empty-queue IndexError origin', 'BarrelList position provenance', 'add path discipline (fresh count, replace on re-add)', 'cull before head access', 'tombstone/entry-map pairing',
+        ' T11.pq: the base class changes the entry list only through the backend hooks.'
+        ' T14.default/T2.peek/T9.cullpost: answers of peek/pop on empty and live queues; _cull returns only after seeing a live head.'),
+    'decided': ['peek/pop answers', '_cull postcondition', 'entry list mutated only through hooks', 'head-only access', 'empty-queue IndexError origin', 'BarrelList position provenance', 'add path discipline (fresh count, replace on re-add)', 'cull before head access', 'tombstone/entry-map pairing',
                 'entry layout agreement', 'counter ownership', 'backend hook completeness'],
     'declined': ['backend ordering (heapq, bisect, BarrelList arithmetic)', 'identity of both queues at any size'],
     'trusted_base': ['heapq and bisect.insort keep their documented invariants on lists of entries'],
